@@ -170,21 +170,28 @@ def k_report(ctx, p):
     ctx.check("report.roundtrip", ok and ft.tc_req_id.as_u32() == tc_v32 and bytes(ft.pack()) == want, "from_tm", f"sub={sub}", case)
 
 
-def k_param_match(ctx, sub, has_step, has_notice):
-    """Parameter sets that do not match the subservice are refused; matching ones accepted."""
+def k_param_match(ctx, sub, has_step, has_notice, sub_as="enum"):
+    """Parameter sets that do not match the subservice are refused; matching ones accepted (subservice given as the enum
+    member or as the plain integer a decoded report's .subservice yields)."""
     RequestId, s1, PFE, sp, PusTc = _imp()
-    case = {"k": "param_match", "sub": sub, "has_step": has_step, "has_notice": has_notice}
-    ctx.case("param_match", (sub, has_step, has_notice), sample=case)
+    case = {"k": "param_match", "sub": sub, "has_step": has_step, "has_notice": has_notice, "sub_as": sub_as}
+    ctx.case("param_match", (sub, has_step, has_notice, sub_as), sample=case)
     ctx.table("param_match_grid", f"{sub}/{int(has_step)}/{int(has_notice)}")
+    ctx.table("param_match_subservice_given_as", sub_as)
     vp = s1.VerificationParams(mk_rid(0x1801C016, "ctor"), PFE.with_byte_size(1, 3) if has_step else None,
                                s1.FailureNotice(PFE.with_byte_size(1, 9), b"\x01") if has_notice else None)
     should = (has_step == (sub in (5, 6))) and (has_notice == (sub % 2 == 0))
-    ok, res = attempt(s1.Service1Tm, apid=1, subservice=s1.Subservice(sub), timestamp=b"", verif_params=vp)
+    subv = s1.Subservice(sub) if sub_as == "enum" else int(sub)
+    ok, res = attempt(s1.Service1Tm, apid=1, subservice=subv, timestamp=b"", verif_params=vp)
+    if ok and should:
+        # an accepted set must also produce the source data of that subservice
+        want_src = P.srv1_source_data(bytes.fromhex("1801c016"), (1, 3) if has_step else None, (1, 9) if has_notice else None, b"\x01" if has_notice else b"")
+        ctx.check("report.param_match", bytes(res.source_data) == want_src, "accepted_set_packs_other_source_data", f"sub={sub}/{sub_as}", case, observed=bytes(res.source_data))
     ctx.ev("report.param_match")
     if should and not ok:
-        ctx.fail("report.param_match", "matching_set_refused", f"sub={sub}", case, error=repr(res))
+        ctx.fail("report.param_match", "matching_set_refused", f"sub={sub}/{sub_as}", case, error=repr(res))
     elif not should and ok:
-        ctx.fail("report.param_match", "mismatching_set_accepted", f"sub={sub}/step={int(has_step)}/notice={int(has_notice)}", case)
+        ctx.fail("report.param_match", "mismatching_set_accepted", f"sub={sub}/step={int(has_step)}/notice={int(has_notice)}/{sub_as}", case)
     elif not should and not isinstance(res, (s1.InvalidVerifParams, ValueError)):
         ctx.fail("report.param_match", "wrong_error", f"{type(res).__name__}", case, error=repr(res))
 
@@ -319,6 +326,7 @@ def run(ctx):
         for hs in (False, True):
             for hn in (False, True):
                 k_param_match(ctx, sub, hs, hn)
+                k_param_match(ctx, sub, hs, hn, "int")
     ctx.exhaustive.append("all 8 x 2 x 2 (subservice, step id present, failure notice present) parameter combinations")
     for w in (1, 2, 4, 8):
         for v in {0, 1, (1 << 8 * w) - 1, 1 << (8 * w - 1), r.getrandbits(8 * w), r.getrandbits(8 * w)}:
